@@ -56,6 +56,11 @@ CORPUS = [
     ("y ~ (f | g) + (x | h)", None),
     ("p(s, n) ~ f:x + (0 + f | g:h)", None),
     ("y ~ bs(x, df=4) + poly(z, 2):f", None),
+    # group-specific effects with several numeric columns / a numeric interaction (D34: printing)
+    ("y ~ (bs(z, df=4) | h)", None),
+    ("y ~ x + (0 + poly(z, 2) | g)", None),
+    ("y ~ (z:x | h) + (1 | g)", None),
+    ("y ~ (poly(x, 2, raw=True):z | h) + f", None),
 ]
 
 
